@@ -205,7 +205,7 @@ func runSysPlug(x *X) {
 		m.plain = sizedBody(x, n, m.compressible, "resp")
 		rs.body = m.plain
 		if wantGzip && n > 0 && c.Intn(6, "pre-encoded") == 0 {
-			m.preEncoded = []string{"gzip", "br"}[c.Intn(2, "pre-kind")]
+			m.preEncoded = []string{"gzip", "br", "deflate", "zstd", "x-gzip"}[c.Intn(5, "pre-kind")]
 			if m.preEncoded == "gzip" {
 				rs.body = gz(m.plain)
 			}
@@ -390,14 +390,16 @@ func runSysPlug(x *X) {
 						continue
 					}
 					decoded = d
-				case "br":
+				case "br", "deflate", "zstd", "x-gzip":
 					decoded = nil // opaque: must be byte-identical to what the backend sent
 				}
 				want := m.plain
-				if ce == "br" {
+				if ce == "br" || ce == "deflate" || ce == "zstd" || ce == "x-gzip" {
 					if !bytes.Equal(got.body, rs.body) {
-						x.Violate("C15", "C15/pre-encoded-body-altered", "exchange %d: backend's br-encoded body was altered", ex.id)
+						x.Violate("C15", "C15/pre-encoded-body-altered", "exchange %d: backend's %s-encoded body was altered", ex.id, ce)
 					}
+				} else if m.preEncoded != "" && m.preEncoded != "gzip" {
+					// judged by the pre-encoded rule below
 				} else if !bytes.Equal(decoded, want) {
 					kind := "identity-label-on-other-bytes"
 					if _, err := gunz(got.body); err == nil && ce == "" {
@@ -411,6 +413,11 @@ func runSysPlug(x *X) {
 					}
 					x.Violate("C15", "C15/decoded-body-differs{"+kind+"}", "exchange %d (%s AE=%q -> %d %s): decoding the client's %d bytes per Content-Encoding %q gives %d bytes, the backend's body has %d (pre-encoded=%q, eligible=%v)", ex.id, ex.method, m.ae, rs.status, rs.framing, len(got.body), ce, len(decoded), len(want), m.preEncoded, gzEligible)
 				}
+			}
+			// "not already encoded": a response the backend encoded itself is delivered byte-identical,
+			// under the encoding the backend named
+			if m.preEncoded != "" && ex.method != "HEAD" && len(rs.body) > 0 && (ce != m.preEncoded || !bytes.Equal(got.body, rs.body)) {
+				x.Violate("C15", "C15/pre-encoded-response-altered{"+m.preEncoded+"->"+ce+"}", "exchange %d: the backend sent %d bytes with Content-Encoding %q; the client got %d bytes with Content-Encoding %q (AE=%q)", ex.id, len(rs.body), m.preEncoded, len(got.body), ce, m.ae)
 			}
 			if ce == "gzip" && m.preEncoded == "" {
 				x.Probe("compressed")
